@@ -178,16 +178,47 @@ Definition fmt_rfc3339_utc (secs : Z) : bytes :=
 
 Definition w_time (t : vtime) : bytes := dquote :: fmt_rfc3339_utc (vsecs t) ++ [dquote].
 
-(* ---- xsd.Marshal for durations of whole seconds with |d| < 24h; None = outside the modelled range ---- *)
+(* ---- xsdDuration (encoding_json.go, since fix 5a7198d): day and time designators only, for durations of whole
+   seconds; None = outside the modelled range (fractions of a second, zero - which the callers never write) ---- *)
 Definition fmt_xsd_duration (nanos : Z) : option bytes :=
   let a := Z.abs nanos in
-  if (a mod 1000000000 =? 0) && (a <? 86400 * 1000000000) && negb (nanos =? 0) then
+  if (a mod 1000000000 =? 0) && negb (nanos =? 0) then
     let s := a / 1000000000 in
-    let h := s / 3600 in let mi := (s mod 3600) / 60 in let se := s mod 60 in
-    Some ((if nanos <? 0 then [x2d] else []) ++ B "PT" ++
-          (if 0 <? h then digits h ++ B "H" else []) ++
-          (if 0 <? mi then digits mi ++ B "M" else []) ++
-          (if 0 <? se then digits se ++ B "S" else []))
+    let dd := s / 86400 in let r := s mod 86400 in
+    let h := r / 3600 in let mi := (r mod 3600) / 60 in let se := r mod 60 in
+    Some ((if nanos <? 0 then [x2d] else []) ++ B "P" ++
+          (if 0 <? dd then digits dd ++ B "D" else []) ++
+          (if 0 <? r then B "T" ++
+             (if 0 <? h then digits h ++ B "H" else []) ++
+             (if 0 <? mi then digits mi ++ B "M" else []) ++
+             (if 0 <? se then digits se ++ B "S" else [])
+           else []))
+  else None.
+
+(* the pinned tree used xsd.Marshal of go-xsd-duration: months of 30 days and years of 356 days, but HOW MANY fit
+   decided with divisors of 28 and 336 days (float arithmetic on whole numbers, exact here) *)
+Definition fmt_xsd_duration_pinned (nanos : Z) : option bytes :=
+  let a := Z.abs nanos in
+  if (a mod 1000000000 =? 0) && negb (nanos =? 0) then
+    let day := 86400 in
+    let s := a / 1000000000 in
+    (* Years(d) = d/Yearish + (d mod Yearish)/(336 days), truncated; the subtraction may go negative *)
+    let y := s / (356 * day) + (if (336 * day) <=? s mod (356 * day) then 1 else 0) in
+    let s1 := s - y * 356 * day in
+    let m := if s1 <? 0 then 0 else s1 / (30 * day) + (if (28 * day) <=? s1 mod (30 * day) then 1 else 0) in
+    let s2 := s1 - m * 30 * day in
+    let dd := if s2 <? 0 then 0 else s2 / day in
+    let s3 := if s2 <? 0 then 0 else s2 - dd * day in
+    let h := s3 / 3600 in let mi := (s3 mod 3600) / 60 in let se := s3 mod 60 in
+    Some ((if nanos <? 0 then [x2d] else []) ++ B "P" ++
+          (if 0 <? y then digits y ++ B "Y" else []) ++
+          (if 0 <? m then digits m ++ B "M" else []) ++
+          (if 0 <? dd then digits dd ++ B "D" else []) ++
+          (if 0 <? s3 then B "T" ++
+             (if 0 <? h then digits h ++ B "H" else []) ++
+             (if 0 <? mi then digits mi ++ B "M" else []) ++
+             (if 0 <? se then digits se ++ B "S" else [])
+           else []))
   else None.
 
 (* a quoted string that is written even when empty (fmt `"%s"` after escaping) *)
